@@ -1,6 +1,7 @@
 // Native recipes on the REAL input_buffer (class local to src/tbb/parallel_pipeline.cpp; included white-box).
 #include "tbb/parallel_pipeline.cpp"
 #include <cstdio>
+#include <cstring>
 #include <vector>
 #include <random>
 #include <algorithm>
@@ -29,7 +30,111 @@ static bool run(const std::vector<unsigned long>& order, std::string& why) {
     for (size_t i = 0; i < n; ++i) if (left[i] != i) { why = "item " + std::to_string(left[i]) + " left in position " + std::to_string(i); return true; }
     return false;
 }
+
+// ---------------------------------------------------------------------------------------------------------------------------------------
+// Whole-pipeline recipes through the public API (jobs stage.* / chain.* / filter.*): every clause of C07 is observed on real runs over all filter-mode
+// sequences of length 1..3 (+ some of length 4), several token limits and item counts, with per-item stage delays that reorder arrivals.
+#include "oneapi/tbb/parallel_pipeline.h"
+#include "oneapi/tbb/global_control.h"
+#include <atomic>
+#include <thread>
+#include <chrono>
+#include <unistd.h>
+namespace pr {
+static std::atomic<long> g_big_live{0}, g_big_bad{0};
+struct Big {   // larger than a pointer and not trivially copyable: travels between filters as a heap token (token_helper<T,true>); every copy must die exactly once, none may be used after its death
+    size_t id, magic, pad; Big(size_t i = 0) : id(i), magic(0xC0FFEE), pad(0) { g_big_live++; } Big(const Big& o) : id(o.id), magic(o.magic), pad(0) { if (o.magic != 0xC0FFEE) g_big_bad++; g_big_live++; }
+    Big(Big&& o) : id(o.id), magic(o.magic), pad(0) { if (o.magic != 0xC0FFEE) g_big_bad++; g_big_live++; } ~Big() { if (magic != 0xC0FFEE) g_big_bad++; magic = 0xDEAD; g_big_live--; }
+    Big& operator=(const Big&) = default;
+};
+static size_t idof(size_t x) { return x; } static size_t idof(const Big& b) { if (b.magic != 0xC0FFEE) g_big_bad++; return b.id; }
+struct State {
+    int L; size_t n, max_tokens; std::vector<tbb::filter_mode> modes;
+    std::vector<std::vector<std::atomic<int>>> count;            // count[f][item]
+    std::vector<std::atomic<int>> inside;                         // concurrent invocations per filter
+    std::vector<std::vector<size_t>> order;                       // processing order per serial filter (appended inside the filter, serial => no race unless the property is broken)
+    std::vector<std::atomic<size_t>> order_len;
+    std::atomic<size_t> emitted{0}, left{0}; std::atomic<long> live{0}, max_live{0};
+    std::atomic<bool> stopped{false}; std::atomic<int> calls_after_stop{0}, overlap{0};
+    unsigned seed;
+    State(int L_, size_t n_, size_t mt, std::vector<tbb::filter_mode> m, unsigned sd) : L(L_), n(n_), max_tokens(mt), modes(m), count(L_), inside(L_), order(L_), order_len(L_), seed(sd) {
+        for (int f = 0; f < L; ++f) { count[f] = std::vector<std::atomic<int>>(n + 1); for (auto& c : count[f]) c = 0; inside[f] = 0; order[f].assign(n + 8, ~size_t(0)); order_len[f] = 0; }
+    }
+    static bool serial(tbb::filter_mode m) { return m != tbb::filter_mode::parallel; }
+    void delay(int f, size_t item) { unsigned h = (unsigned)(item * 2654435761u) ^ (unsigned)(f * 40503u) ^ seed; h ^= h >> 13; h *= 0x5bd1e995u; h ^= h >> 15;
+        unsigned k = h % 7; if (k == 0) std::this_thread::sleep_for(std::chrono::microseconds(200 + h % 300)); else if (k < 3) for (unsigned i = 0; i < (h % 64); ++i) std::this_thread::yield(); }
+    void enter(int f, size_t item) {
+        if (inside[f].fetch_add(1) > 0 && serial(modes[f])) overlap++;
+        if (item < n) count[f][item]++;
+        if (serial(modes[f])) { size_t k = order_len[f].fetch_add(1); if (k < order[f].size()) order[f][k] = item; }
+    }
+    void leave(int f) { inside[f].fetch_sub(1); }
+};
+template<class Item>
+static bool run(int L, std::vector<tbb::filter_mode> modes, size_t tokens, size_t n, unsigned seed, std::string& why) {
+    g_big_live = 0; g_big_bad = 0;
+    State S(L, n, tokens, modes, seed); State* s = &S;
+    auto note_live = [s]() { long l = s->live.fetch_add(1) + 1; long m = s->max_live.load(); while (l > m && !s->max_live.compare_exchange_weak(m, l)) {} };
+    tbb::filter<void, void> chain;
+    if (L == 1) {
+        chain = tbb::make_filter<void, void>(modes[0], [s, note_live](tbb::flow_control& fc) {
+            if (s->stopped && State::serial(s->modes[0])) s->calls_after_stop++;
+            size_t id = s->emitted.load(); bool take = false;
+            while (id < s->n && !(take = s->emitted.compare_exchange_weak(id, id + 1))) {}
+            if (!take) { s->stopped = true; fc.stop(); return; }
+            note_live(); s->enter(0, id); s->delay(0, id); s->leave(0); s->live--; s->left++;
+        });
+    } else {
+        tbb::filter<void, Item> f = tbb::make_filter<void, Item>(modes[0], [s, note_live](tbb::flow_control& fc) -> Item {
+            if (s->stopped && State::serial(s->modes[0])) s->calls_after_stop++;
+            if (State::serial(s->modes[0]) && s->inside[0].load() > 0) s->overlap++;
+            size_t id = s->emitted.load(); bool take = false;
+            while (id < s->n && !(take = s->emitted.compare_exchange_weak(id, id + 1))) {}
+            if (!take) { s->stopped = true; fc.stop(); return Item(0); }
+            s->enter(0, id); s->delay(0, id); s->leave(0); note_live(); return Item(id);          // item ids start at 0: with Item = size_t the first item is a "null" object
+        });
+        for (int i = 1; i + 1 < L; ++i) f = f & tbb::make_filter<Item, Item>(modes[i], [s, i](Item it) -> Item { size_t id = idof(it); s->enter(i, id); s->delay(i, id); s->leave(i); return Item(id); });
+        chain = f & tbb::make_filter<Item, void>(modes[L - 1], [s, L](Item it) { size_t id = idof(it); s->enter(L - 1, id); s->delay(L - 1, id); s->leave(L - 1); s->live--; s->left++; });
+    }
+    tbb::parallel_pipeline(tokens, chain);
+    auto name = [&]() { std::string r = "modes="; for (auto m : modes) r += (m == tbb::filter_mode::parallel ? "P" : m == tbb::filter_mode::serial_in_order ? "I" : "O"); return r + " tokens=" + std::to_string(tokens) + " items=" + std::to_string(n); };
+    if (g_big_bad) { why = name() + ": an item object was used or destroyed after it had been destroyed (" + std::to_string(g_big_bad.load()) + " times)"; return true; }
+    if (g_big_live != 0) { why = name() + ": " + std::to_string(g_big_live.load()) + " item objects were never destroyed / destroyed twice"; return true; }
+    if (!S.stopped) { why = name() + ": parallel_pipeline returned before the input filter signalled end of input (emitted " + std::to_string(S.emitted.load()) + ")"; return true; }
+    if (S.left != S.emitted || S.emitted != n) { why = name() + ": " + std::to_string(S.emitted.load()) + " items emitted, " + std::to_string(S.left.load()) + " left the last filter when the call returned"; return true; }
+    for (int f = 0; f < L; ++f) for (size_t i = 0; i < n; ++i) if (S.count[f][i] != 1) { why = name() + ": item " + std::to_string(i) + " passed filter " + std::to_string(f) + " " + std::to_string(S.count[f][i].load()) + " times"; return true; }
+    if (S.overlap) { why = name() + ": a serial filter ran two invocations at once"; return true; }
+    if (S.max_live > (long)tokens) { why = name() + ": " + std::to_string(S.max_live.load()) + " items in flight, limit " + std::to_string(tokens); return true; }
+    if (S.calls_after_stop) { why = name() + ": the serial input filter was invoked again after it had signalled end of input"; return true; }
+    int first_io = -1;
+    for (int f = 0; f < L; ++f) if (modes[f] == tbb::filter_mode::serial_in_order) {
+        if (first_io < 0) { first_io = f; continue; }
+        for (size_t k = 0; k < n; ++k) if (S.order[f][k] != S.order[first_io][k]) { why = name() + ": serial_in_order filter " + std::to_string(f) + " processed item " + std::to_string(S.order[f][k]) + " in position " + std::to_string(k) + ", the first ordered filter had item " + std::to_string(S.order[first_io][k]) + " there"; return true; }
+    }
+    if (first_io == 0) for (size_t k = 0; k < n; ++k) if (S.order[0][k] != k) { why = name() + ": ordered input filter order broken"; return true; }
+    return false;
+}
+static int all(const char* job) {
+    std::thread([] { std::this_thread::sleep_for(std::chrono::seconds(60)); std::printf("REPRODUCED class=pipeline-hang job did not finish: a pipeline run neither completed nor returned within 60 s\n"); std::fflush(stdout); _exit(0); }).detach();
+    tbb::global_control gc(tbb::global_control::max_allowed_parallelism, 8);
+    const tbb::filter_mode M[3] = {tbb::filter_mode::parallel, tbb::filter_mode::serial_in_order, tbb::filter_mode::serial_out_of_order};
+    std::string why; unsigned seed = 1;
+    for (int rep = 0; rep < 2; ++rep)
+    for (int L = 1; L <= 4; ++L) {
+        int combos = 1; for (int i = 0; i < L; ++i) combos *= 3;
+        for (int c = 0; c < combos; ++c) {
+            if (L == 4 && (c % 5) != rep) continue;
+            std::vector<tbb::filter_mode> modes; int x = c; for (int i = 0; i < L; ++i) { modes.push_back(M[x % 3]); x /= 3; }
+            for (size_t tokens : {size_t(1), size_t(3), size_t(16)}) for (size_t n : {size_t(0), size_t(1), size_t(5), size_t(48)}) {
+                if ((rep == 0 ? run<size_t>(L, modes, tokens, n, seed++, why) : run<Big>(L, modes, tokens, n, seed++, why))) { std::printf("REPRODUCED class=pipeline-run %s\n", why.c_str()); std::fflush(stdout); _exit(0); }
+            }
+        }
+    }
+    std::printf("NOT-REPRODUCED: pipeline runs, all clauses of C07 held\n"); std::fflush(stdout); _exit(0);
+}
+}
 int main(int argc, char** argv) {
+    if (argc > 1 && (!std::strncmp(argv[1], "stage.", 6) || !std::strncmp(argv[1], "chain.", 6) || !std::strncmp(argv[1], "filter.", 7))) return pr::all(argv[1]);
     std::string why;
     std::vector<std::vector<unsigned long>> cases = {
         {8, 9, 4, 5, 6, 7, 1, 2, 3, 0}, {4, 8, 16, 15, 14, 13, 12, 11, 10, 9, 7, 6, 5, 3, 2, 1, 0}, {3, 2, 1, 0}, {1, 0, 3, 2, 5, 4}, {16, 17, 1, 2, 3, 4, 5, 6, 7, 8, 9, 10, 11, 12, 13, 14, 15, 0}};
